@@ -256,6 +256,11 @@ empty @is_you(string s, int k) { string t = s; s = "new"; write(t); write(s); st
 empty @is_you(int big, byte b) { write(wide(big)); write(wide(b)); write(pair(big, big)); write(pair(b, b)); int w = b; write(w); write(flag(big > 0, big) is int); write(flag(false, 7) is int);
   bool[] f = [big > 0, b > 5, true, false, true, false, true, false, big == 30000, b == 7, big < 0]; for (int i = 0; i < f.length; i += 1) { write(f[i] is int); }
   byte[] bs = [b, (big is byte), 'x']; write(bs); int[] ws = [b, big, b]; write(ws[0]); write(ws[2]); }''', [['30000', '7'], ['-1', '255']]),
+    ('literal_args', '''int sum(const int[] p) { int s = 0; for (int i = 0; i < p.length; i += 1) { s += p[i]; } return s; }
+int count(const bool[] p) { int n = 0; for (int i = 0; i < p.length; i += 1) { if (p[i]) { n += 1; } } return n; }
+empty show(const byte[] p, const string[] q) { write(p); write(p.length); for (int i = 0; i < q.length; i += 1) { write(q[i]); } write(q.length); }
+empty @is_you(int a, byte d) { write(sum([a, a + 1, 10, 20])); write(sum([a])); writeln([d, '!']); show([d, d, 'x'], ["p", "qq"]); write(count([a > 0, true, a == 3])); write(sum([sum([a, 1]), sum([2, a, 3])]));
+  int[] keep = [a, 9]; write(sum(keep)); write([a, 5, 6].length); write([d, 66][1]); }''', [['3', '65'], ['-1', '90']]),
     ('aliasing', '''empty inc(int[] a) { for (int i = 0; i < a.length; i += 1) { a[i] += 1; } }
 int first(const int[] a) { return a[0]; }
 empty @is_you(int n) { int[] a = [n, 2, 3]; int[] b = a; b[0] = 10; write(a[0]); inc(a); write(b[0]); write(first(b)); const int[] c = [7, 8]; write(first(c)); bool[] f = [true, false]; bool[] h = f; h[1] = true; write(f[1]);
